@@ -83,6 +83,7 @@ func arm(t *Timer) {
 	t.ID = nextID
 	pending = append(pending, t)
 	b := backend
+	armedCond.Broadcast()
 	mu.Unlock()
 	if b != nil {
 		b.Armed(t)
@@ -194,6 +195,34 @@ func Advance(d Duration) {
 }
 
 func Unix(sec, nsec int64) Time { return stdtime.Unix(sec, nsec) }
+
+var armedCond = sync.NewCond(&mu)
+
+// LastID is the id of the most recently armed timer.
+func LastID() int {
+	mu.Lock()
+	defer mu.Unlock()
+	return nextID
+}
+
+// WaitArmed blocks until a timer with an id greater than after and duration d
+// is armed (condition-based, no clock) and returns the newest such timer.
+func WaitArmed(after int, d Duration) *Timer {
+	mu.Lock()
+	defer mu.Unlock()
+	for {
+		var found *Timer
+		for _, t := range pending {
+			if t.ID > after && t.D == d && t.armed {
+				found = t
+			}
+		}
+		if found != nil {
+			return found
+		}
+		armedCond.Wait()
+	}
+}
 
 // ---- harness side (seq mode) ------------------------------------------------
 
